@@ -457,13 +457,14 @@ class DatasetProcessor:
                     self.reference_record_dict = Fasta(self.args.reference, indexname=args.fai_file_name)
                 except UnsupportedCompressionFormat:
                     gunzipped_reference = os.path.join(args.output, ref_name)
-                    if not os.path.exists(gunzipped_reference) or not self.args.resume:
-                        # a run may be interrupted while the copy is written and resumed later: the copy gets its name only when it is complete
-                        incomplete_reference = gunzipped_reference + ".tmp"
-                        with open(incomplete_reference, "w") as outf:
-                            shutil.copyfileobj(gzip.open(self.args.reference, "rt"), outf)
-                        os.replace(incomplete_reference, gunzipped_reference)
-                        logger.info("Loading uncompressed reference from " + gunzipped_reference)
+                    # a copy found in the output folder may come from a previous run with another reference of the same name,
+                    # so it is never reused, not even by a resumed run;
+                    # a run may be interrupted while the copy is written and resumed later: the copy gets its name only when it is complete
+                    incomplete_reference = gunzipped_reference + ".tmp"
+                    with open(incomplete_reference, "w") as outf:
+                        shutil.copyfileobj(gzip.open(self.args.reference, "rt"), outf)
+                    os.replace(incomplete_reference, gunzipped_reference)
+                    logger.info("Loading uncompressed reference from " + gunzipped_reference)
                     self.args.reference = gunzipped_reference
                     self.reference_record_dict = Fasta(self.args.reference, indexname=args.fai_file_name)
             else:
